@@ -9,7 +9,8 @@
 (* released when its struct becomes unreachable - and at no other time.    *)
 (*                                                                         *)
 (* User actions (one evaluation / statement of a driver script each):      *)
-(*   Evaluate(n, kind)    n = evaluate(...) with a sparse/dense/scalar out *)
+(*   Evaluate(n, kind)    n = evaluate(...) with a sparse/dense/scalar/    *)
+(*                        empty-sparse output                              *)
 (*   EvaluateWith(n, m)   n = evaluate(..., t = <tensor of m>)             *)
 (*   Alias(n, m)          n = m                                            *)
 (*   StructRef(n, m)      n = m.cffi_tensor        (keeps only the struct) *)
@@ -37,7 +38,8 @@ VARIABLES bind,      \* name -> [k : "none" | "tensor" | "struct", t]
 vars == <<bind, made, freed, nfree, hist>>
 
 None == [k |-> "none", t |-> 0]
-Kinds == {"sparse", "dense", "scalar"}
+\* "empty" = a sparse output that stores nothing (the kernel's final realloc(crd, 0) may return NULL)
+Kinds == {"sparse", "dense", "scalar", "empty"}
 
 Reachable(t) == \E n \in Names : bind[n].t = t /\ bind[n].k \in {"tensor", "struct"}
 Garbage == {t \in 1..Len(made) : made[t].kernel /\ ~Reachable(t) /\ t \notin freed}
